@@ -61,6 +61,41 @@ pub fn run() {
             println!("{}", json!({"kind":"abandon","id":id,"rounds":rounds,"k":k,"failures":failures}));
             continue;
         }
+        if a.get("op").map(|s| s == "unit").unwrap_or(false) {
+            // items whose encoding is EMPTY (`()`, a unit struct, PhantomData): nothing but their count travels, and it must be exact
+            #[derive(serde::Serialize, serde::Deserialize)]
+            struct Marker;
+            let before: u32 = a["before"].parse().unwrap();
+            let after: u32 = a["after"].parse().unwrap();
+            let (utx, urx) = ipc::channel::<()>().unwrap();
+            let (mtx, mrx) = ipc::channel::<(Marker, std::marker::PhantomData<u64>)>().unwrap();
+            for _ in 0..before {
+                utx.send(()).unwrap();
+                mtx.send((Marker, std::marker::PhantomData)).unwrap();
+            }
+            let mut us = urx.to_stream();
+            let mut ms = mrx.to_stream();
+            for _ in 0..after {
+                utx.send(()).unwrap();
+                mtx.send((Marker, std::marker::PhantomData)).unwrap();
+            }
+            drop(utx);
+            drop(mtx);
+            let res = with_watchdog(5_000, move || {
+                let (mut nu, mut nm, mut bad) = (0u32, 0u32, 0u32);
+                futures::executor::block_on(async {
+                    while let Some(m) = us.next().await {
+                        if m.is_ok() { nu += 1 } else { bad += 1 }
+                    }
+                    while let Some(m) = ms.next().await {
+                        if m.is_ok() { nm += 1 } else { bad += 1 }
+                    }
+                });
+                (nu, nm, bad)
+            });
+            println!("{}", json!({"kind":"unit","id":id,"before":before,"after":after,"hang":res.is_none(),"counts":res.map(|r| vec![r.0, r.1, r.2])}));
+            continue;
+        }
         let plan: Vec<(u32, u32, bool)> = a["plan"]
             .split(';')
             .map(|p| {
